@@ -26,6 +26,11 @@ Vocabulary (anything else raises `TranslateError` = broken tie):
                        `DiagLinearOperator(self.lazy_covariance_matrix.diagonal()[batch_idx + (e,)])`
   view sites           `x.view(shape)`, `.transpose(-1, -2)`, `.contiguous()`, `.reshape(*x.shape[:-2], -1)`, shapes built from
                        `self._output_shape`, `x.shape`, `[:-2]`, `[:-3:-1]`, `+`, under `if [not] self._interleaved:`
+  index tuple          (the preamble of `__getitem__` and its top-level dispatch, translated into `getitemIdx` / `getitemFull`)
+                       `if not isinstance(idx, tuple): idx = (idx,)`, `... in x`, `x.index(...)`, `len(x)`, `self.mean.dim()`,
+                       tuple slices `x[a:]` / `x[:b]`, `x + y`, `(slice(None),) * k`, tuple displays of `slice(None)` / `...`,
+                       `x[-1]` / `x[-2]`, `raise` (= no result), `if/elif/else` re-assigning existing names,
+                       `new_mean = self.mean[idx]` (the point from which the tuple holds no `Ellipsis`)
   results              `MultivariateNormal(mean=new_mean, covariance_matrix=new_cov)`,
                        `MultitaskMultivariateNormal(mean=new_mean, covariance_matrix=new_cov, interleaved=..., validate_args=False)`
 """
@@ -42,6 +47,17 @@ class TranslateError(Exception):
 def bad(node, why):
     src = ast.unparse(node) if isinstance(node, ast.AST) else str(node)
     raise TranslateError(f"{REL}:{getattr(node, 'lineno', '?')}: outside the G3 vocabulary ({why}): {src[:160]}")
+
+
+LEAN_RESERVED = {"prefix", "suffix", "infix", "infixl", "infixr", "postfix", "notation", "end", "open", "from", "at", "do",
+                 "then", "else", "fun", "let", "have", "show", "match", "with", "in", "if", "def", "theorem", "namespace",
+                 "section", "variable", "universe", "instance", "class", "structure", "where", "deriving", "import", "local",
+                 "macro", "syntax", "by", "Type", "Prop", "Sort", "mutual", "private", "protected", "export", "using"}
+
+
+def lean_ident(name):
+    """a Python local name as a Lean identifier"""
+    return name + "_" if name in LEAN_RESERVED else name
 
 
 def camel(name):
@@ -528,13 +544,63 @@ class Translator:
                     return f"indexTensor N {text}.toList"
         bad(node, "covariance selection")
 
+    def _batch_name(self, node, env):
+        """a name holding a tuple of plain index components (batch_idx, idx) -> lean text"""
+        if isinstance(node, ast.Name) and node.id in env and env[node.id][1] == "IdxList":
+            return env[node.id][0]
+        bad(node, "batch part of a covariance selection")
+
+    def _batch_plus(self, node, k, env):
+        """`B + (e1, ..., ek)` with B a tuple of plain components -> (lean text of B, [e1..ek]) or None"""
+        if isinstance(node, ast.BinOp) and isinstance(node.op, ast.Add) and isinstance(node.right, ast.Tuple) \
+                and len(node.right.elts) == k:
+            return self._batch_name(node.left, env), node.right.elts
+        return None
+
+    def covariance_selection_sel(self, node, env, blk):
+        """RHS of `new_cov = ...` (or the `covariance_matrix=` argument) -> lean text of type CovSel: the batch
+        components as written plus the event selection."""
+        # self.lazy_covariance_matrix[B]
+        if isinstance(node, ast.Subscript) and ast.unparse(node.value) == self.SEL and isinstance(node.slice, ast.Name):
+            return f"(CovSel.mk {self._batch_name(node.slice, env)} EvSel.full)"
+        # DiagLinearOperator(self.lazy_covariance_matrix.diagonal()[B + (e,)])
+        if _is_call(node, "DiagLinearOperator") and len(node.args) == 1 and not node.keywords:
+            inner = node.args[0]
+            if isinstance(inner, ast.Subscript) and ast.unparse(inner.value) == f"{self.SEL}.diagonal()":
+                be = self._batch_plus(inner.slice, 1, env)
+                if be is not None:
+                    return f"(CovSel.mk {be[0]} (EvSel.diag {self.iexpr(be[1][0], env)}))"
+        # self.lazy_covariance_matrix[B + (s, s)]
+        if isinstance(node, ast.Subscript) and ast.unparse(node.value) == self.SEL:
+            be = self._batch_plus(node.slice, 2, env)
+            if be is not None and all(isinstance(x, ast.Name) for x in be[1]):
+                a, b = be[1]
+                if a.id != b.id:
+                    bad(node, "row and column selections differ")
+                if a.id in env and env[a.id][1] == "NSlice":
+                    return f"(CovSel.mk {be[0]} (EvSel.slice2 {env[a.id][0]}))"
+        # self.lazy_covariance_matrix[B + (i,)][..., i]
+        if isinstance(node, ast.Subscript) and isinstance(node.value, ast.Subscript) \
+                and ast.unparse(node.value.value) == self.SEL:
+            be = self._batch_plus(node.value.slice, 1, env)
+            s2 = node.slice
+            if be is not None and isinstance(be[1][0], ast.Name) and isinstance(s2, ast.Tuple) and len(s2.elts) == 2 \
+                    and isinstance(s2.elts[0], ast.Constant) and s2.elts[0].value is Ellipsis \
+                    and isinstance(s2.elts[1], ast.Name) and s2.elts[1].id == be[1][0].id and be[1][0].id in env:
+                text, ty = env[be[1][0].id]
+                if ty == "Vec":
+                    return f"(CovSel.mk {be[0]} (EvSel.tensor {text}))"
+                if ty == "TVal":
+                    return f"(CovSel.mk {be[0]} (EvSel.tensor {text}.toList))"
+        bad(node, "covariance selection")
+
     def result(self, node, env):
         """`return Cls(mean=new_mean, covariance_matrix=new_cov, ...)` -> lean text of the OutKind."""
         if not (isinstance(node, ast.Call) and isinstance(node.func, ast.Name) and not node.args):
             bad(node, "return value")
         kw = {k.arg: k.value for k in node.keywords}
         if ast.unparse(kw.get("mean", ast.Constant(0))) != "new_mean" \
-                or ast.unparse(kw.get("covariance_matrix", ast.Constant(0))) != "new_cov":
+                or (ast.unparse(kw.get("covariance_matrix", ast.Constant(0))) != "new_cov" and "new_cov" in env):
             bad(node, "result not built from new_mean / new_cov")
         extra = set(kw) - {"mean", "covariance_matrix", "interleaved", "validate_args"}
         if extra:
@@ -573,6 +639,155 @@ class Translator:
         "isinstance(row_idx, slice) or isinstance(col_idx, slice)": ("mesh", None, None),
         None: ("pairs", None, None),
     }
+
+    # ------------------------------------------------------------------ the index tuple: preamble and top-level dispatch
+    # names have type Expr (what the user wrote), Tup (List BIdx: may hold Ellipsis), IdxList (List Idx) or Int
+
+    def ttuple(self, node, env):
+        """tuple-valued expression -> (lean text, Tup | IdxList)"""
+        if isinstance(node, ast.Name):
+            if node.id in env and env[node.id][1] in ("Tup", "IdxList"):
+                return env[node.id]
+            bad(node, "not a tuple")
+        if isinstance(node, ast.Tuple):
+            elts = []
+            for e in node.elts:
+                if _is_call(e, "slice") and [ast.unparse(a) for a in e.args] in (["None"], ["None", "None", "None"]) and not e.keywords:
+                    elts.append("BIdx.full")
+                elif isinstance(e, ast.Constant) and e.value is Ellipsis:
+                    elts.append("BIdx.ellipsis")
+                else:
+                    bad(e, "tuple display element")
+            return "[" + ", ".join(elts) + "]", "Tup"
+        if isinstance(node, ast.BinOp) and isinstance(node.op, ast.Add):
+            (a, ta), (b, tb) = self.ttuple(node.left, env), self.ttuple(node.right, env)
+            if ta != tb:
+                bad(node, "concatenation of tuples of different kinds")
+            return f"({a} ++ {b})", ta
+        if isinstance(node, ast.BinOp) and isinstance(node.op, ast.Mult):
+            a, ta = self.ttuple(node.left, env)
+            return f"(pyRepeat {a} {self.tint(node.right, env)})", ta
+        if isinstance(node, ast.Subscript) and isinstance(node.slice, ast.Slice) and node.slice.step is None:
+            a, ta = self.ttuple(node.value, env)
+            lo, hi = node.slice.lower, node.slice.upper
+            if lo is not None and hi is None:
+                return f"(pyDrop {a} {self.tint(lo, env)})", ta
+            if lo is None and hi is not None:
+                return f"(pyTake {a} {self.tint(hi, env)})", ta
+        bad(node, "tuple expression")
+
+    def tint(self, node, env):
+        """integer expression over tuple lengths / the rank of the mean -> lean Int text"""
+        if isinstance(node, ast.Constant) and isinstance(node.value, int) and not isinstance(node.value, bool):
+            return str(node.value) if node.value >= 0 else f"({node.value})"
+        if isinstance(node, ast.Name):
+            if node.id in env and env[node.id][1] == "Int":
+                return env[node.id][0]
+            bad(node, "not an int")
+        if _is_call(node, "len") and len(node.args) == 1 and not node.keywords:
+            return f"(({self.ttuple(node.args[0], env)[0]}).length : Int)"
+        if ast.unparse(node) in ("self.mean.dim()", "self.mean.ndimension()", "self.mean.ndim"):
+            return "dim"
+        if isinstance(node, ast.BinOp) and isinstance(node.op, (ast.Add, ast.Sub, ast.Mult)):
+            op = {ast.Add: "+", ast.Sub: "-", ast.Mult: "*"}[type(node.op)]
+            return f"({self.tint(node.left, env)} {op} {self.tint(node.right, env)})"
+        if isinstance(node, ast.UnaryOp) and isinstance(node.op, ast.USub):
+            return f"(-{self.tint(node.operand, env)})"
+        bad(node, "integer expression over the index tuple")
+
+    def tcond(self, node, env):
+        if isinstance(node, ast.BoolOp):
+            op = " ∧ " if isinstance(node.op, ast.And) else " ∨ "
+            return "(" + op.join(self.tcond(v, env) for v in node.values) + ")"
+        if isinstance(node, ast.UnaryOp) and isinstance(node.op, ast.Not):
+            return f"(¬ {self.tcond(node.operand, env)})"
+        if isinstance(node, ast.Compare) and len(node.ops) == 1:
+            if isinstance(node.ops[0], ast.In) and isinstance(node.left, ast.Constant) and node.left.value is Ellipsis:
+                a, ta = self.ttuple(node.comparators[0], env)
+                if ta != "Tup":
+                    bad(node, "`... in x` on a tuple that cannot hold an Ellipsis")
+                return f"(BIdx.ellipsis ∈ {a})"
+            if type(node.ops[0]) in self.CMP:
+                return f"({self.tint(node.left, env)} {self.CMP[type(node.ops[0])]} {self.tint(node.comparators[0], env)})"
+        bad(node, "condition over the index tuple")
+
+    def _assigned(self, stmts):
+        out = []
+        for s in stmts:
+            if isinstance(s, ast.Assign):
+                for tg in s.targets:
+                    if isinstance(tg, ast.Name) and tg.id not in out:
+                        out.append(tg.id)
+            elif isinstance(s, ast.If):
+                for nm in self._assigned(s.body) + self._assigned(s.orelse):
+                    if nm not in out:
+                        out.append(nm)
+        return out
+
+    def tstmts(self, stmts, env, k):
+        """statement list over the index tuple in continuation style -> lean text of an `Option`; `raise` = `none`,
+        `k(env)` is the text that follows the list."""
+        env = dict(env)
+        lines = []
+        for s in stmts:
+            if isinstance(s, ast.Expr) and isinstance(s.value, ast.Constant) and isinstance(s.value.value, str):
+                continue
+            if isinstance(s, ast.Raise):
+                lines.append("none")
+                return "\n".join(lines)
+            if isinstance(s, ast.Assign) and len(s.targets) == 1 and isinstance(s.targets[0], ast.Name):
+                nm, v = s.targets[0].id, s.value
+                if isinstance(v, ast.Call) and isinstance(v.func, ast.Attribute) and v.func.attr == "index" \
+                        and len(v.args) == 1 and isinstance(v.args[0], ast.Constant) and v.args[0].value is Ellipsis \
+                        and not v.keywords:
+                    a, ta = self.ttuple(v.func.value, env)
+                    if ta != "Tup":
+                        bad(s, "`.index(...)` on a tuple that cannot hold an Ellipsis")
+                    lines.append(f"Option.bind (pyIndexOf? {a} BIdx.ellipsis) fun {lean_ident(nm)} =>")
+                    env[nm] = (lean_ident(nm), "Int")
+                    continue
+                try:
+                    txt, ty = self.ttuple(v, env)
+                except TranslateError:
+                    txt, ty = self.tint(v, env), "Int"
+                lines.append(f"let {lean_ident(nm)} := {txt};")
+                env[nm] = (lean_ident(nm), ty)
+                continue
+            if isinstance(s, ast.If):
+                # `if not isinstance(idx, tuple): idx = (idx,)`
+                u = ast.unparse(s.test)
+                if u.startswith("not isinstance(") and u.endswith(", tuple)") and not s.orelse and len(s.body) == 1:
+                    x = s.test.operand.args[0]
+                    if isinstance(x, ast.Name) and x.id in env and env[x.id][1] == "Expr" \
+                            and ast.unparse(s.body[0]) == f"{x.id} = ({x.id},)":
+                        lines.append(f"let {x.id} := (match {env[x.id][0]} with\n  | .bare x => [x]\n  | .tuple l => l);")
+                        env[x.id] = (x.id, "Tup")
+                        continue
+                    bad(s, "tuple normalisation")
+                if not s.orelse and len(s.body) == 1 and isinstance(s.body[0], ast.Raise):
+                    lines.append(f"if {self.tcond(s.test, env)} then none else")    # guard
+                    continue
+                live = [nm for nm in self._assigned([s]) if nm in env]
+                if not live:
+                    bad(s, "if-statement that re-assigns nothing known")
+                types = {nm: env[nm][1] for nm in live}
+
+                def yld(e2, live=live, types=types, s=s):
+                    for nm in live:
+                        if e2[nm][1] != types[nm]:
+                            bad(s, f"`{nm}` changes its kind inside the if-statement")
+                    vals = [e2[nm][0] for nm in live]
+                    return "some " + (vals[0] if len(vals) == 1 else "(" + ", ".join(vals) + ")")
+                a = self.tstmts(s.body, env, yld)
+                b = self.tstmts(s.orelse, env, yld)
+                pat = lean_ident(live[0]) if len(live) == 1 else "(" + ", ".join(lean_ident(x) for x in live) + ")"
+                lines.append(f"Option.bind (if {self.tcond(s.test, env)} then\n{indent_term(a, 4)}\n  else\n{indent_term(b, 4)}) fun {pat} =>")
+                for nm in live:
+                    env[nm] = (lean_ident(nm), types[nm])
+                continue
+            bad(s, "statement over the index tuple")
+        lines.append(k(env))
+        return "\n".join(lines)
 
     def getitem(self):
         fn = self.methods.get("__getitem__")
@@ -634,6 +849,43 @@ class Translator:
         names = [b["name"] for b in self.branches]
         if len(set(names)) != len(names):
             raise TranslateError(f"duplicate dispatch branches {names}")
+        # ---- the index tuple: preamble (everything before `new_mean = self.mean[idx]`) and the top-level dispatch
+        if [a.arg for a in fn.args.args] != ["self", "idx"] or fn.args.vararg or fn.args.kwarg:
+            bad(fn, "__getitem__ signature")
+        stmts = [s for s in fn.body
+                 if not (isinstance(s, ast.Expr) and isinstance(s.value, ast.Constant) and isinstance(s.value.value, str))]
+        k = [i for i, s in enumerate(stmts) if ast.unparse(s) == "new_mean = self.mean[idx]"]
+        if len(k) != 1 or k[0] + 2 != len(stmts) or stmts[k[0] + 1] is not top:
+            bad(fn, "expected `new_mean = self.mean[idx]` immediately before the final dispatch")
+
+        def cast(env):
+            if env["idx"][1] != "Tup":
+                bad(fn, "the index is not a tuple when the mean is indexed")
+            return f"BIdx.comps? {env['idx'][0]}"
+        self.getitem_idx = self.tstmts(stmts[:k[0]], {"idx": ("e", "Expr")}, cast)
+        envt = {"idx": ("idx", "IdxList")}
+        ret = top.body[0].value
+        kw = {x.arg: x.value for x in ret.keywords} if isinstance(ret, ast.Call) else {}
+        if "covariance_matrix" not in kw:
+            bad(ret, "batch-only result without covariance_matrix=")
+        batch_only = f"some ({self.result(ret, {})}, {self.covariance_selection_sel(kw['covariance_matrix'], envt, None)})"
+        if not (isinstance(block[0], ast.Assign) and ast.unparse(block[0].targets[0]) == "batch_idx"):
+            bad(block[0], "batch_idx assignment")
+        batch_txt, bty = self.ttuple(block[0].value, envt)
+        if bty != "IdxList":
+            bad(block[0], "batch_idx is not a tuple of plain components")
+        lay = lambda v: f"(layout_{v} inter n t pointIdx taskIdx)"
+        self.getitem_full = "\n".join([
+            "Option.bind (getitemIdx dim e) fun idx =>",
+            f"if {self.tcond(top.test, envt)} then",
+            f"  {batch_only}",
+            f"else if {self.tcond(top.orelse[0].test, envt)} then",
+            "  none",
+            "else",
+            f"  let batch_idx := {batch_txt};",
+            "  Option.bind (pyGet? idx (-2)) fun pointIdx =>",
+            "  Option.bind (pyGet? idx (-1)) fun taskIdx =>",
+            f"  getitemRCB inter (n * t) {lay('num_rows')} {lay('num_cols')} batch_idx {lay('row_idx')} {lay('col_idx')}"])
 
     def branch(self, key, test, body):
         if key not in self.BRANCH_NAMES:
@@ -642,38 +894,51 @@ class Translator:
         base = {"row_idx": ("row_idx", "Idx"), "col_idx": ("col_idx", "Idx"),
                 "num_rows": ("num_rows", "Int"), "num_cols": ("num_cols", "Int")}
         test_text = self.bexpr(test, base) if test is not None else None
-        env = dict(base)
         ty = {"int": "Int", "slice": "PySlice", None: "Idx"}
-        env["row_idx"] = ("row_idx", ty[rpat])
-        env["col_idx"] = ("col_idx", ty[cpat])
-        blk = Block()
-        final = None
-        for s in body:
-            if isinstance(s, ast.Expr) and isinstance(s.value, ast.Constant):
-                continue
-            if isinstance(s, ast.Assign) and len(s.targets) == 1 and isinstance(s.targets[0], ast.Name) \
-                    and s.targets[0].id == "new_cov":
-                sel = self.covariance_selection(s.value, env, blk)
-                env["new_cov"] = (blk.bind("new_cov", sel), "Pos")
-                continue
-            if isinstance(s, ast.Assign):
-                self.assign(s, env, blk)
-                continue
-            if isinstance(s, ast.If) and not _returns(s.body) and not _returns(s.orelse):
-                self.merge_if(s, env, blk)
-                continue
-            if isinstance(s, ast.Return):
-                if "new_cov" not in env:
-                    bad(s, "return before new_cov")
-                final = f"some ({self.result(s.value, env)}, {env['new_cov'][0]})"
-                break
-            bad(s, "statement in dispatch branch")
-        if final is None:
-            bad(body[-1], "dispatch branch without return")
+        bodies = {}
+        # two renderings of the same statements: "pos" = the flat event positions selected (batch part dropped),
+        # "sel" = the covariance selection as written, batch components included (`CovSel`)
+        for mode in ("pos", "sel"):
+            env = dict(base)
+            env["row_idx"] = ("row_idx", ty[rpat])
+            env["col_idx"] = ("col_idx", ty[cpat])
+            if mode == "sel":
+                env["batch_idx"] = ("batch_idx", "IdxList")
+            blk = Block()
+            final = None
+            for s in body:
+                if isinstance(s, ast.Expr) and isinstance(s.value, ast.Constant):
+                    continue
+                if isinstance(s, ast.Assign) and len(s.targets) == 1 and isinstance(s.targets[0], ast.Name) \
+                        and s.targets[0].id == "new_cov":
+                    if mode == "pos":
+                        sel = self.covariance_selection(s.value, env, blk)
+                        env["new_cov"] = (blk.bind("new_cov", sel), "Pos")
+                    else:
+                        sel = self.covariance_selection_sel(s.value, env, blk)
+                        env["new_cov"] = (blk.let("new_cov", sel), "Sel")
+                    continue
+                if isinstance(s, ast.Assign):
+                    self.assign(s, env, blk)
+                    continue
+                if isinstance(s, ast.If) and not _returns(s.body) and not _returns(s.orelse):
+                    self.merge_if(s, env, blk)
+                    continue
+                if isinstance(s, ast.Return):
+                    if "new_cov" not in env:
+                        bad(s, "return before new_cov")
+                    final = f"some ({self.result(s.value, env)}, {env['new_cov'][0]})"
+                    break
+                bad(s, "statement in dispatch branch")
+            if final is None:
+                bad(body[-1], "dispatch branch without return")
+            bodies[mode] = blk.render(final, 2)
         lt = {"Int": "Int", "PySlice": "PySlice", "Idx": "Idx"}
         self.branches.append({"name": name, "test": test_text, "rpat": rpat, "cpat": cpat,
                               "sig": f"(inter : Bool) (N num_rows num_cols : Int) (row_idx : {lt[ty[rpat]]}) (col_idx : {lt[ty[cpat]]})",
-                              "body": blk.render(final, 2), "src": key or "else"})
+                              "sigB": f"(inter : Bool) (N num_rows num_cols : Int) (batch_idx : List Idx) "
+                                      f"(row_idx : {lt[ty[rpat]]}) (col_idx : {lt[ty[cpat]]})",
+                              "body": bodies["pos"], "bodyB": bodies["sel"], "src": key or "else"})
 
     # ------------------------------------------------------------------ to_data_independent_dist
     def data_independent(self):
@@ -917,6 +1182,7 @@ class Translator:
         L.append("Regenerated from $VERIF_REPO's working tree on every `./check C11`.")
         L.append("-/")
         L.append("import GPVerif.Model.MTIndex")
+        L.append("import GPVerif.Model.MTBatch")
         L.append("")
         L.append("set_option linter.unusedVariables false")
         L.append("")
@@ -951,6 +1217,36 @@ class Translator:
                 L.append(f"  {'if' if i == 0 else 'else if'} {b['test']} then\n    {rhs}")
             else:
                 L.append(f"  else\n    {rhs}")
+        L.append("")
+        L.append("/-! the same branches with the covariance selection kept as written: batch components + event selection -/")
+        for b in self.branches:
+            L.append(f"/-- branch `{b['src']}` -/")
+            L.append(f"def branchB_{b['name']} {b['sigB']} : Option (OutKind × CovSel) :=")
+            L.append(b["bodyB"])
+            L.append("")
+        L.append("/-- the dispatch of `__getitem__` in (row, col) coordinates, batch components carried along -/")
+        L.append("def getitemRCB (inter : Bool) (N num_rows num_cols : Int) (batch_idx : List Idx) (row_idx col_idx : Idx) : Option (OutKind × CovSel) :=")
+        for i, b in enumerate(self.branches):
+            call = f"branchB_{b['name']} inter N num_rows num_cols batch_idx"
+            if b["rpat"] is None and b["cpat"] is None:
+                rhs = f"{call} row_idx col_idx"
+            else:
+                rhs = (f"(match row_idx, col_idx with\n    | {pat[b['rpat']]} r, {pat[b['cpat']]} c => {call} r c\n"
+                       f"    | _, _ => none)")
+            if b["test"] is not None:
+                L.append(f"  {'if' if i == 0 else 'else if'} {b['test']} then\n    {rhs}")
+            else:
+                L.append(f"  else\n    {rhs}")
+        L.append("")
+        L.append("/-- the preamble of `__getitem__`: tuple normalisation, ellipsis expansion, appended task slice; the tuple "
+                 "that indexes the mean (`dim` = `self.mean.dim()`; `none` = an `IndexError` is raised) -/")
+        L.append("def getitemIdx (dim : Int) (e : IdxExpr) : Option (List Idx) :=")
+        L.append(indent_term(self.getitem_idx, 2))
+        L.append("")
+        L.append("/-- the whole `__getitem__`: result class and covariance selection (batch-only branch, too-many-indices, "
+                 "layout assignment + dispatch) -/")
+        L.append("def getitemFull (inter : Bool) (dim n t : Int) (e : IdxExpr) : Option (OutKind × CovSel) :=")
+        L.append(indent_term(self.getitem_full, 2))
         L.append("")
         L.append("/-- `d[pointIdx, taskIdx]` for `n` points, `t` tasks: layout assignment followed by the dispatch -/")
         L.append("def getitem (inter : Bool) (n t : Int) (pointIdx taskIdx : Idx) : Option (OutKind × List Int) :=")
